@@ -1,6 +1,6 @@
 (* C14 property theorems.  Only statements closed by [exact]; each followed by Print Assumptions.
    Stated over the definitions the harness runs (C14.Model.run / run_prog on the abstract stack of C14.Stack). *)
-From Miller Require Import C14.Value C14.Stack C14.Model C14.Proofs C14.StackProofs C14.ScopeProofs C14.InterpProofs C14.PrecProofs gen.Gen_Precedence.
+From Miller Require Import C14.Value C14.Stack C14.Model C14.Proofs C14.StackProofs C14.ScopeProofs C14.DepthProofs C14.InterpProofs C14.PrecProofs gen.Gen_Precedence.
 Open Scope Z_scope.
 
 (* ---- the pooled, recycled frames and framesets of pkg/runtime/stack.go are observationally the abstract scopes:
@@ -58,17 +58,27 @@ Print Assumptions C14_caller_stack_restored.
    evaluating any expression -- with all the user-defined functions it calls, recursively, and every assignment they make to
    their parameters and locals, indexed or not -- returns the local-variable stack of the evaluation context unchanged *)
 Theorem C14_arguments_by_value_callee_cannot_touch_caller_locals :
-  forall vr fns fuel e st v st',
-    stk st <> [] -> run vr fns fuel (TEval e) st = Ok (RV v, st') -> stk st' = stk st.
+  forall fns fuel e st v st',
+    stk st <> [] -> run fns fuel (TEval e) st = Ok (RV v, st') -> stk st' = stk st.
 Proof. exact expressions_preserve_locals. Qed.
 Print Assumptions C14_arguments_by_value_callee_cannot_touch_caller_locals.
 
 (* statements (blocks, loops, emits ...) only ever change the CURRENT frameset: every caller's frameset is untouched *)
 Theorem C14_statements_touch_only_current_frameset :
-  forall vr fns fuel ss st o st',
-    stk st <> [] -> run vr fns fuel (TBlock ss) st = Ok (RO o, st') -> tl (stk st') = tl (stk st) /\ stk st' <> [].
+  forall fns fuel ss st o st',
+    stk st <> [] -> run fns fuel (TBlock ss) st = Ok (RO o, st') -> tl (stk st') = tl (stk st) /\ stk st' <> [].
 Proof. exact statements_preserve_caller_framesets. Qed.
 Print Assumptions C14_statements_touch_only_current_frameset.
+
+(* block scoping over whole executions (induction on fuel): a block -- with every nested block, loop, break/continue/return,
+   function and subroutine call in it -- returns with the current frameset at the frame depth it was entered with, and with
+   all callers' framesets untouched: the scopes visible after the block are the ones visible before it *)
+Theorem C14_blocks_restore_scope_depth :
+  forall fns fuel ss st o st',
+    (1 <= depth (stk st))%nat -> run fns fuel (TBlock ss) st = Ok (RO o, st') ->
+    depth (stk st') = depth (stk st) /\ tl (stk st') = tl (stk st).
+Proof. exact blocks_restore_scope_depth. Qed.
+Print Assumptions C14_blocks_restore_scope_depth.
 
 (* ---- new fields are appended while reassigned fields keep their position *)
 Theorem C14_reassigned_field_keeps_position :
@@ -83,8 +93,8 @@ Print Assumptions C14_new_field_is_appended.
 
 (* ---- more fuel never changes a result other than OutOfFuel *)
 Theorem C14_fuel_monotone :
-  forall vr fns fuel fuel' t st r,
-    (fuel <= fuel')%nat -> run vr fns fuel t st = r -> r <> OutOfFuel -> run vr fns fuel' t st = r.
+  forall fns fuel fuel' t st r,
+    (fuel <= fuel')%nat -> run fns fuel t st = r -> r <> OutOfFuel -> run fns fuel' t st = r.
 Proof. exact fuel_monotone. Qed.
 Print Assumptions C14_fuel_monotone.
 
@@ -96,31 +106,31 @@ Print Assumptions C14_precedence_matches_reference.
 
 (* ---- absent rules: assigning an absent value is skipped, for every kind of left-hand side, with or without indices *)
 Theorem C14_absent_assignment_skipped :
-  forall vr fns rec b idx e st st1,
+  forall fns rec b idx e st st1,
     rec (TEval e) st = Ok (RV VAbsent, st1) ->
-    step vr fns rec (TExec (SAssign b idx e)) st = Ok (RO ONormal, st1).
+    step fns rec (TExec (SAssign b idx e)) st = Ok (RO ONormal, st1).
 Proof. exact absent_assignment_skipped. Qed.
 Print Assumptions C14_absent_assignment_skipped.
 
 Theorem C14_absent_declaration_skipped :
-  forall vr fns rec t x e st st1,
+  forall fns rec t x e st st1,
     rec (TEval e) st = Ok (RV VAbsent, st1) ->
-    step vr fns rec (TExec (SDefine t x e)) st = Ok (RO ONormal, st1).
+    step fns rec (TExec (SDefine t x e)) st = Ok (RO ONormal, st1).
 Proof. exact absent_declaration_skipped. Qed.
 Print Assumptions C14_absent_declaration_skipped.
 
 (* a present value assigned to $k is stored by PutCopy (so the two field-order theorems above apply to it) *)
 Theorem C14_field_assignment_is_put :
-  forall vr fns rec k e st st1 v r,
+  forall fns rec k e st st1 v r,
     rec (TEval e) st = Ok (RV v, st1) -> v <> VAbsent -> inrec st1 = Some r ->
-    step vr fns rec (TExec (SAssign (LField k) [] e)) st = Ok (RO ONormal, set_inrec (Some (mput k v r)) st1).
+    step fns rec (TExec (SAssign (LField k) [] e)) st = Ok (RO ONormal, set_inrec (Some (mput k v r)) st1).
 Proof. exact field_assignment_is_put. Qed.
 Print Assumptions C14_field_assignment_is_put.
 
 (* ---- out-of-stream variables persist across records *)
 Theorem C14_oosvars_persist_across_records :
   forall vr p q fuel r t st st1,
-    run_block vr (p_funcs p) fuel (p_main p)
+    run_block (p_funcs p) fuel (p_main p)
       (let st0 := set_nr (nr st + 1) (set_inrec (Some r) st) in if v_filter_per_record vr then set_filt VAbsent st0 else st0) = Ok st1 ->
     exists st2, run_records vr p q fuel (r :: t) st = run_records vr p q fuel t st2 /\ oos st2 = oos st1 /\ stk st2 = stk st1.
 Proof. exact oosvars_persist. Qed.
@@ -134,29 +144,31 @@ Theorem C14_filter_is_per_record :
 Proof. exact filter_is_per_record. Qed.
 Print Assumptions C14_filter_is_per_record.
 
-(* ... which is false of the variant mirroring the pinned tree (FilterExpression is never reset): witness *)
-Theorem C14_filter_is_per_record_refuted_for_pinned_variant :
-  run_prog {| v_filter_per_record := false; v_idx_gate := true |} sticky_witness false 50 [[(B "a", VInt 1)]; [(B "a", VInt 2)]] = Ok []
+(* ... which was false of the tree before the repair of put_or_filter.go (FilterExpression never reset), kept as
+   documentation of that variant: witness *)
+Theorem C14_filter_is_per_record_refuted_for_old_variant :
+  run_prog {| v_filter_per_record := false |} sticky_witness false 50 [[(B "a", VInt 1)]; [(B "a", VInt 2)]] = Ok []
   /\ run_prog documented sticky_witness false 50 [[(B "a", VInt 1)]; [(B "a", VInt 2)]] = Ok [ORec [(B "a", VInt 2)]].
 Proof. exact filter_sticky_variant_drops_later_records. Qed.
-Print Assumptions C14_filter_is_per_record_refuted_for_pinned_variant.
+Print Assumptions C14_filter_is_per_record_refuted_for_old_variant.
 
-(* ---- type declarations and indexed assignment.  PARTIAL: indexed assignment that would turn a scalar-valued local into a
-   collection is outside the modelled fragment (the pinned tree overwrites the shared Mlrval in place, findings F2/F3/F5), so
-   this only covers locals currently holding a map *)
-Theorem C14_type_gate_enforced_indexed_partial :
-  forall vr x vs v st fs r cur t st',
-    v_idx_gate vr = true -> stk st = fs :: r -> fs_get x fs = Some cur -> cur <> VAbsent -> fs_type x fs = Some t ->
-    assign_local_indexed vr x vs v st = Ok (RO ONormal, st') ->
-    exists m, put_indexed_value cur vs v = POk m /\ gate t (VMap m) = true.
+(* ---- type declarations are enforced at indexed assignment too, for every local: x[i...] = v on a local declared with
+   type t succeeds only if t admits maps (so it always fails on int/num/str/bool locals), given that a map currently stored
+   in the slot respects the declaration *)
+Theorem C14_type_gate_enforced_indexed :
+  forall x vs v st fs r t st',
+    stk st = fs :: r -> fs_type x fs = Some t ->
+    (forall m, fs_get x fs = Some (VMap m) -> gate t (VMap m) = true) ->
+    assign_local_indexed x vs v st = Ok (RO ONormal, st') ->
+    forall m, gate t (VMap m) = true.
 Proof. exact indexed_assignment_gated. Qed.
-Print Assumptions C14_type_gate_enforced_indexed_partial.
+Print Assumptions C14_type_gate_enforced_indexed.
 
 (* ---- emit @name, "a", "b" splits a two-level map exactly into the records of the two-level grouping *)
 Theorem C14_emit_by_names_splits_like_grouping :
-  forall vr fns name a b, a <> b -> a <> name -> b <> name ->
+  forall fns name a b, a <> b -> a <> name -> b <> name ->
   forall m fuel st, two_level m = true -> (total2 m < fuel)%nat ->
-    run vr fns fuel (TEmitIdx false [] name m [a; b]) st = Ok (RO ONormal, emit_all (group2 name a b m) st).
+    run fns fuel (TEmitIdx false [] name m [a; b]) st = Ok (RO ONormal, emit_all (group2 name a b m) st).
 Proof. exact emit_by_names_is_grouping. Qed.
 Print Assumptions C14_emit_by_names_splits_like_grouping.
 
@@ -167,7 +179,7 @@ Example C14_nonvacuous :
   /\ a_define (B "x") TInt (VInt 1) (a_push_frame a_new) <> None
   /\ a_define (B "x") TInt (VStr (B "a")) a_new = None
   /\ run_prog documented
-       {| p_funcs := [{| f_name := B "f"; f_params := [(TInt, B "n")]; f_ret := TInt;
+       {| p_funcs := [{| f_name := B "f"; f_sub := false; f_params := [(TInt, B "n")]; f_ret := TInt;
                          f_body := [SIf [(EBin (BCmp CLe) (ELocal (B "n")) (EInt 1), [SReturn (Some (EInt 1))])] None;
                                     SReturn (Some (EBin (BArith OMul) (ELocal (B "n")) (ECall (B "f") [EBin (BArith OSub) (ELocal (B "n")) (EInt 1)])))] |}];
           p_begin := []; p_main := [SAssign (LField (B "y")) [] (ECall (B "f") [EField (B "a")])]; p_end := [] |}
